@@ -44,6 +44,7 @@ theorem applyCall_inv (n : Nat) (m : Mach n) (c : Call) (hm : Inv n m) :
     have h2 := H.start [] _ allBusy_nil h1.1
     exact ⟨h2.1, allRejected_append.2 ⟨h1.2.2, h2.2⟩⟩
   | run e => exact H.run [] m e allBusy_nil hm
+  | defn i => exact ⟨hm, allRejected_nil⟩
 
 theorem applyCall_ref (n : Nat) (m : Mach n) (c : Call) (hm : Inv n m) :
     (abs n (applyCall n m c).1, (applyCall n m c).2) = Spec.applyCall n (abs n m) c := by
@@ -61,6 +62,7 @@ theorem applyCall_ref (n : Nat) (m : Mach n) (c : Call) (hm : Inv n m) :
     simp only [applyCall, Spec.applyCall]
     rw [show ([] : Spec.SCtx) = absCtx [] from rfl, ← h1]; simp only []; rw [← h2]
   | run e => exact R.run [] m e allBusy_nil hm
+  | defn i => rfl
 
 theorem rootView_abs : ∀ (n : Nat) (m : Mach n), Inv n m → (rootRt n m).view = Spec.view (Spec.rootRt n (abs n m))
   | 0, m, h => by
@@ -90,6 +92,7 @@ theorem exec_bal (n : Nat) (m : Mach n) (hm : Inv n m) (T : Trace) (hb : Bal n m
         rw [List.append_assoc] at this
         exact this
       | run e => exact BL.run [] m e T allBusy_nil hm hb
+      | defn i => simpa [applyCall] using hb
     have := ih _ h1.1 _ hb1
     simp only [exec, allTrace, List.flatMap_cons] at this ⊢
     rw [List.append_assoc] at this
